@@ -42,3 +42,38 @@ Definition mobs_eqb (a b : mobs) : bool :=
   (fst (fst a) =? fst (fst b)) && leqb key_eqb (snd (fst a)) (snd (fst b))
   && leqb (leqb value_eqb) (snd a) (snd b).
 
+
+(* ---- REPL sessions: per input (up to the first failing one) the outcome code and the top levels
+   that ran during that input (the input itself is [9; k], last); per probe (input index, spelling)
+   the value the input read *)
+Record sq := { s_fs : fsys; s_inputs : list module; s_probes : list (nat * spelling) }.
+Definition sobs := (list (N * list fpath) * list (list value))%type.
+
+Fixpoint number_inputs (k : N) (ms : list module) : list (fpath * module) :=
+  match ms with [] => [] | m :: r => ([9; k], m) :: number_inputs (N.succ k) r end.
+
+Definition sess_results (q : sq) : list (res (list event)) :=
+  run_session (s_fs q) [] (fuel_bound (s_fs q)) (number_inputs 0 (s_inputs q)) (session_start []).
+
+Definition sres_obs (r : res (list event)) : N * list fpath :=
+  match r with
+  | Ok evs => (0, map ev_file evs)
+  | Err e evs => (err_code e, map ev_file evs)
+  | Fuel => (8, [])
+  end.
+
+Definition sprobe_obs (rs : list (res (list event))) (pr : nat * spelling) : list value :=
+  match nth_error rs (fst pr) with
+  | Some (Ok evs) => match last (map Some evs) None with
+                     | Some ev => match probe ev (snd pr) with Some v => [v] | None => [] end
+                     | None => []
+                     end
+  | _ => []
+  end.
+
+Definition sess_obs (q : sq) : sobs :=
+  let rs := sess_results q in (map sres_obs rs, map (sprobe_obs rs) (s_probes q)).
+
+Definition sobs_eqb (a b : sobs) : bool :=
+  leqb (fun x y => (fst x =? fst y) && leqb key_eqb (snd x) (snd y)) (fst a) (fst b)
+  && leqb (leqb value_eqb) (snd a) (snd b).
